@@ -15,7 +15,7 @@
    non200_issues_no_sct is C08's theorem sct_only_on_success (Props/C08.v); in this model an
    outcome other than [Issued] carries no SCT by construction. *)
 From Coq Require Import String NArith ZArith List.
-From V Require Import Base.Bytes TLS.TlsModel CT.Rfc6962Spec X509.PrecertModel
+From V Require Import Base.Bytes TLS.TlsModel CT.Rfc6962Spec CT.CtFuncs X509.PrecertModel
   CTFE.AddChainModel CTFE.AddChainSpec CTFE.AddChainFinding CTFE.AddChainTheorems.
 Import ListNotations.
 Local Open Scope N_scope.
@@ -95,6 +95,16 @@ Theorem extra_data_is_validated_chain_with_root : forall H sign cfg before s aft
   chain_in_range (map c_der (s_rest s)).
 Proof. exact T_extra. Qed.
 Print Assumptions extra_data_is_validated_chain_with_root.
+
+(* and reads back as the submission: the library's entry decoder (ct.RawLogEntryFromLeaf, what
+   get-entries clients run) returns the submitted leaf certificate and the validated chain *)
+Theorem stored_leaf_decodes_to_submitted_chain : forall H sign cfg before s after r,
+  at_pos H sign current_guard cfg before s after (Issued r) ->
+  exists leaf_value,
+    raw_log_entry_from_leaf (l_value (i_queued r)) (l_extra (i_queued r)) =
+      Ok (leaf_value, asn1cert (s_leaf s), VList (map asn1cert (map c_der (s_rest s)))).
+Proof. exact T_decode. Qed.
+Print Assumptions stored_leaf_decodes_to_submitted_chain.
 
 (* a repeated submission of a stored certificate gets the stored leaf: the same timestamp and the
    same signed bytes, whatever the clock says now - the FIRST submission's clock reading *)
